@@ -1,4 +1,5 @@
 """C02 - DLIS index gives random access identical to the sequential read (E2 search over E1 files)."""
+import io
 import itertools
 
 from mc import bfs
@@ -120,6 +121,7 @@ def op_menu(recs, lay):
     ops.append(['seq'])
     for n in (0, 4, 1000):
         ops.append(['seqpeek', n])
+    ops.append(['seqother'])
     ops.append(['reenter'])
     ops.append(['vrs'])
     ops.append(['validate'])
@@ -136,6 +138,17 @@ class System:
         self.index = pIndex.LogicalRecordIndex(self.f)
         self.index._enter()
         self.f.reset_log()
+        self.data = data
+        self.kept = []          # results of earlier fetches the caller still holds: (object, eflr, type, bytes)
+        self._other = None
+
+    def other(self):
+        """A second index, open at the same time on its own copy of the same bytes (two tools' worth of readers in one process)."""
+        if self._other is None:
+            from TotalDepth.RP66V1.core import pIndex
+            self._other = pIndex.LogicalRecordIndex(io.BytesIO(self.data))
+            self._other._enter()
+        return self._other
 
     def canon(self):
         fr = self.index.rp66v1_file
@@ -156,6 +169,26 @@ def step(system, op, check):
             exp = [(r['eflr'], r['type'], r['payload']) for r in system.recs]
             if got != exp:
                 bad.append(({'kind': 'seq_after_fetch_differs'}, 'sequential read gives %r expected %r' % (got, exp)))
+        return bad
+    if op[0] == 'seqother':
+        # a sequential read of this reader during which a second, independent index fetches the records in reverse order
+        fr = system.index.rp66v1_file
+        oth = system.other()
+        try:
+            got = []
+            k = len(system.recs)
+            for d in fr.iter_logical_records():
+                got.append((d.lr_is_eflr, d.lr_type, d.logical_data.bytes))
+                k -= 1
+                o = oth.get_file_logical_data(max(k, 0), 0, -1)
+                if check and o.logical_data.bytes != system.recs[max(k, 0)]['payload']:
+                    return [({'kind': 'fetch_bytes', 'entry': 'second index during a sequential read'}, 'record %d through the second index: %d bytes' % (k, len(o.logical_data.bytes)))]
+        except Exception as err:  # noqa
+            return [({'kind': 'seq_raises', 'exc': type(err).__name__, 'with_second_index': True}, 'sequential read while a second index fetches: %s: %s' % (type(err).__name__, err))]
+        if check:
+            exp = [(r['eflr'], r['type'], r['payload']) for r in system.recs]
+            if got != exp:
+                bad.append(({'kind': 'seq_with_second_index_differs'}, 'sequential read while a second index fetches delivers %d records, %d written' % (len(got), len(exp))))
         return bad
     if op[0] == 'seqpeek':
         # a sequential read during which the first op[1] bytes of every record delivered are fetched again by position (a scan
@@ -228,11 +261,19 @@ def step(system, op, check):
             fld = system.index.get_file_logical_data(i, off, ln)
     except Exception as err:  # noqa
         return [({'kind': 'fetch_raises', 'exc': type(err).__name__, 'entry': how}, '%s(%d,%d,%d): %s: %s' % (how, i, off, ln, type(err).__name__, err))]
+    earlier = system.kept
+    system.kept = (system.kept + [(fld, bool(fld.lr_is_eflr), fld.lr_type, fld.logical_data.bytes)])[-3:]
     if not check:
         return bad
     rec = system.recs[i]
     exp = rec['payload'][off:] if ln < 0 else rec['payload'][off:off + ln]
     got = fld.logical_data.bytes
+    # results of earlier fetches that the caller still holds say what they said when they were fetched
+    for k_obj, k_eflr, k_type, k_bytes in earlier:
+        if (bool(k_obj.lr_is_eflr), k_obj.lr_type, k_obj.logical_data.bytes) != (k_eflr, k_type, k_bytes):
+            bad.append(({'kind': 'earlier_result_changed'}, 'a result fetched earlier now reads (eflr, type, %d bytes) = (%r, %r), when fetched (%r, %r, %d bytes)'
+                        % (len(k_obj.logical_data.bytes), k_obj.lr_is_eflr, k_obj.lr_type, k_eflr, k_type, len(k_bytes))))
+            break
     if got != exp:
         multi = len(rec['cuts']) > 0
         bad.append(({'kind': 'fetch_bytes', 'multi_segment': multi, 'partial': not (off == 0 and ln < 0), 'entry': how},
